@@ -454,3 +454,152 @@ def stream_unit(prop):
                      types={'chunk': BYTES}),
              }, on_yield=stream_on_yield, prop=prop)
     return u
+
+
+# ------------------------------------------------------------------ _chunk_producer
+TABLE = sym.DictC(BYTES, INT)
+
+
+def oc(k):
+    """ghost: the k-th chunk produced by the chunker (contract: C10.call.nonempty)"""
+    return UF('out_chunk', INT, BYTES)(k)
+
+
+def csum(k):
+    """ghost: total length of the chunks before the k-th"""
+    return UF('csum', INT, INT)(k)
+
+
+def producer_setup(b):
+    me = shared.repo_self(b, cache=False)
+    b.me = me
+    state = b.ref('state', STATE)
+    table = b.ref('chunks_table', TABLE)
+    h = b.st.heap
+    b.state, b.table = state, table
+    b.assume(h.read(STATE, 'chunk_counter', state.z) == 0)
+    b.assume(h.read(STATE, 'bytes_chunked', state.z) == 0)
+    b.assume(h.read(TABLE, 'n', table.z) == 0)
+    d = z3.Const('td', z3.StringSort())
+    b.assume(z3.ForAll([d], z3.Not(z3.Select(h.read(TABLE, 'has', table.z), d))))
+    n = z3.Int('n_chunks')
+    b.assume(n >= 0)
+    k = z3.Int('ck')
+    b.assume(csum(0) == 0)
+    b.assume(z3.ForAll([k], z3.Implies(k >= 0, z3.And(csum(k + 1) == csum(k) + z3.Length(oc(k)),
+                                                     z3.Length(oc(k)) >= 1))))
+
+    def chunkify(interp, st, args, kwargs):
+        st.emit('chunkify', source=args[0] if args else None)
+        yield st, IterSpec(n, lambda kk: SV(BYTES, oc(kk)))
+
+    props_obj = me._attrs['props']
+    shared.PROPS.consts['chunkify'] = Model('chunkify', lambda i, s, a, k_: chunkify(i, s, a[1:] if a and isinstance(a[0], SV) and a[0].ty == Ref(shared.PROPS) else a, k_))
+    shared.PROPS.consts['chunkify'] = shared.MethodModel('chunkify', lambda i, s, a, k_: chunkify(i, s, a[1:], k_))
+    b.bind('_stream_files', Model('_stream_files', lambda i, s, a, k_: iter([(s, Obj('generator:_stream_files'))])))
+
+    def loc_model(interp, st, args, kwargs):
+        yield st, SV(STR, gc.loc(sym.lift(args[0], BYTES).z))
+
+    me._attrs['_chunk_digest_to_location'] = Model('loc', loc_model)
+    b.bind('_SnapshotChunk', models.ctor_model(CHUNK))
+
+    def is_set(interp, st, args, kwargs):
+        yield st, sym.fresh(BOOL, 'aborted')
+
+    def put(interp, st, args, kwargs):
+        full = st.copy()
+        yield full, Raised(Exc('Full'))
+        st.emit('queue_put', chunk=args[0])
+        yield st, None
+
+    b.bind('abort', Obj('abort', is_set=Model('is_set', is_set)))
+    b.bind('chunk_queue', Obj('chunk_queue', put=Model('put', put)))
+    b.bind('queue', Obj('queue', Full=shared.ExcClass('Full'), Empty=shared.ExcClass('Empty')))
+    b.sym('queue_timeout', sym.REAL)
+
+
+def table_wf(h, table):
+    has, val, order, n = (h.read(TABLE, f, table.z) for f in ('has', 'val', 'order', 'n'))
+    d, e = z3.Strings('twd twe')
+    return z3.And(
+        n >= 0,
+        z3.ForAll([d], z3.Implies(z3.Select(has, d), z3.And(0 <= z3.Select(val, d), z3.Select(val, d) < n,
+                                                          z3.Select(order, d) == z3.Select(val, d)))),
+        z3.ForAll([d, e], z3.Implies(z3.And(z3.Select(has, d), z3.Select(has, e), d != e),
+                                     z3.Select(val, d) != z3.Select(val, e))))
+
+
+def producer_inv(b):
+    def inv(ctx):
+        h = ctx.st.heap
+        k = ctx.k
+        return z3.And(
+            h.read(STATE, 'chunk_counter', b.state.z) == k,
+            h.read(STATE, 'bytes_chunked', b.state.z) == csum(k),
+            table_wf(h, b.table),
+        )
+    return inv
+
+
+def producer_post(prop):
+    def post(res):
+        b = res.builder
+        puts = 0
+        for p in res.body_paths('For#1') + res.paths:
+            view = shared.PropsView(p.st, b.me.props)
+            for e in p.events('queue_put'):
+                puts += 1
+                pc = p.pc_at(e)
+                st = p.st
+                c = e.data['chunk'].z
+                kk = [x for x in p.st.pc if False]
+                k = p.st.lookup('output_chunk')
+                data = k.z
+                # find k: output_chunk == oc(k) by construction of the iteration domain
+                hh = st.heap
+                g = lambda f: hh.read(CHUNK, f, c)
+                dg = H()(data)
+                has, val = hh.read(TABLE, 'has', b.table.z), hh.read(TABLE, 'val', b.table.z)
+                # C01.producer.consecutive
+                res.oblige(pc, f'{prop}.producer.consecutive', z3.And(
+                    g('stream_end') == g('stream_start') + z3.Length(data),
+                    g('stream_start') == hh.read(STATE, 'bytes_chunked', b.state.z) - z3.Length(data),
+                    g('counter') == hh.read(STATE, 'chunk_counter', b.state.z)))
+                # C01.producer.table: index is the table entry of the chunk's digest
+                res.oblige(pc, f'{prop}.producer.index_is_table_entry', z3.And(
+                    z3.Select(has, dg), z3.Select(val, dg) == g('index')))
+                # C07/C14: location is loc(H(chunk)); body = ENC(chunk, KDF(shared_key, ctx=H(chunk))) or the chunk
+                res.oblige(pc, f'{prop}.producer.location_from_digest', g('location') == gc.loc(dg))
+                encs = [x for x in p.events('encrypt')]
+                if encs:
+                    x = encs[-1]
+                    res.oblige(pc, f'{prop}.producer.body_is_enc_under_digest_subkey', z3.And(
+                        view.encrypted, g('contents') == x.data['result'].z,
+                        x.data['data'].z == data, x.data['key'].z == view.subkey(dg)))
+                else:
+                    res.oblige(pc, f'{prop}.producer.body_is_plain_only_when_unencrypted', z3.And(
+                        z3.Not(view.encrypted), g('contents') == data))
+        res.oblige([], f'{prop}.producer.put_sites_checked', z3.BoolVal(puts >= 2))
+        # relation between the loop counter and the ghost sequence (per generic iteration)
+        for p in res.body_paths('For#1'):
+            pass
+    return post
+
+
+def producer_unit(prop):
+    def setup(b):
+        producer_setup(b)
+        u.loops['For#1'].inv = producer_inv(b)
+
+    true_inv = lambda ctx: z3.BoolVal(True)
+    u = Unit(f'{prop}.chunk_producer', REPO_PY, 'Repository.snapshot._chunk_producer', setup, producer_post(prop),
+             loops={'For#1': LoopSpec(None, modifies=[
+                 ('heap_at', STATE, 'chunk_counter', ['state']), ('heap_at', STATE, 'bytes_chunked', ['state']),
+                 ('heap', TABLE, 'has'), ('heap', TABLE, 'val'), ('heap', TABLE, 'order'), ('heap', TABLE, 'n'),
+                 ('heap', CHUNK, 'contents'), ('heap', CHUNK, 'index'), ('heap', CHUNK, 'location'),
+                 ('heap', CHUNK, 'stream_start'), ('heap', CHUNK, 'stream_end'), ('heap', CHUNK, 'counter')],
+                 name='For#1', types={'index': INT}),
+                 'While#1': LoopSpec(true_inv, modifies=[], name='While#1')},
+             prop=prop)
+    return u
